@@ -203,8 +203,8 @@ def func_fit(x, y, ncoeff, invvar=None, function_name='legendre', ia=None,
     if ngood == 0:
         pass
     elif ngood == 1:
-        res[0] = y[igood[0]]
-        yfit += y[igood[0]]
+        res[0] = y[igood[0]] if ia[0] else inputans[0]
+        yfit += res[0]
     else:
         ncfit = min(ngood, ncoeff)
         function_map = {'legendre': flegendre,
